@@ -264,7 +264,15 @@ def check_replay(ck, R):
     for c in tx.calls():
         if isinstance(c.func, ast.Name) and tx.df.is_local(c.func.id) and c.func.id not in ("match",):
             risky.append((c, ("Exception",), "constructing the exception class (its __init__ is user code and may raise anything)"))
-    ck.need(len(risky) >= 3, "to_exception: expected import_module / getattr / constructor call")
+    # the class is located by importing its module: a replay in a process that has not imported that
+    # module yet (second process on a shared store, class imported lazily inside the function body) must
+    # still raise the recorded class, so a look-up among the already loaded modules is not enough
+    imps = [c for c in tx.calls("import_module")] + [c for c in tx.calls("__import__")]
+    ck.ob(R, tx.key(None, "class-located-by-import"), bool(imps),
+          "the recorded exception class is located by importing its module" if imps else
+          "to_exception no longer imports the module that defines the recorded exception class (e.g. it only consults sys.modules): in a "
+          "process that has not loaded that module the replay raises MementoException instead of the recorded class", tx.where())
+    ck.need(len(risky) >= 2, "to_exception: expected getattr / constructor call")
     for (c, exc_names, what) in risky:
         covered = False
         n = c
@@ -356,6 +364,8 @@ def check_frame_rule(ck, R):
 
 
 def check(ck):
+    from .memo import check_new_memo_tables
+    ck.run(check_new_memo_tables, ck, "C02.M1", ('runner_local', 'runner', 'storage_base', 'storage_filesystem', 'exception', 'base', 'metadata'))
     ck.run(check_exhaustive, ck, "C02.R1")
     ck.run(check_order, ck, "C02.R2")
     ck.run(check_run_record_replay, ck, "C02.R3")
@@ -371,3 +381,7 @@ def check(ck):
                                      "storage_base.DefaultCodec.PicklePartition._serialize_index"])
     from .c15 import check_slots
     ck.run(check_slots, ck, "C02.R8")
+    # run-once needs one mutex per invocation for as long as a caller may hold it (shared with C09.R2)
+    from .c09 import check_mutex_table_stable
+    ck.rule("C02.R9", "the per-invocation mutex table never drops a mutex", 1)
+    ck.run(check_mutex_table_stable, ck, "C02.R9")
